@@ -10,4 +10,4 @@ cd "$W"
 VERIF_REPO=$D ./check C04 --tier quick 2>&1 | grep -E "^(VIOLATION|OK|CHECK-ERROR|NOTE)" | head -3 | cut -c1-160 | sed "s/^/$N C04: /"
 H=$(echo -n "$D" | sha1sum | cut -c1-8)
 rm -rf "$D" "$W"/.build/*-$H-* "$W"/.build/*-$H
-python3 -c "from vf import core; core.run_translators(['vmops','precedence','readfn','opcodes'])" >/dev/null
+python3 -c "from vf import core; core.run_translators(['vmops','precedence','readfn','opcodes','sizedstr','matchops'])" >/dev/null
